@@ -155,7 +155,7 @@ def extract(case):
             _, mask, out = recs[0]
             prove("stored_is_indexing_result[%s]" % name, sub[name] is out)
             prove("mask_is_bool_ndarray[%s]" % name, isinstance(mask, snp.ndarray) and mask.dtype.is_bool() is True)
-            prove("mask_length[%s]" % name, bool(mask.shape[0] == d.n))
+            prove("mask_length[%s]" % name, mask.shape[0] == d.n)
             prove("mask_iff_inside[%s]" % name, SV(core.bterm(mask.elem((i,))) == core.bterm(inside), "b"))
         else:
             for fact in list(snp._QFACTS.values()):
